@@ -22,8 +22,8 @@ pub fn prop() -> Prop {
             "colour conversion is judged by the From impl itself (the property says 'through Into')",
         ],
         subs: vec![
-            Sub::tape("histories_native_parent", 260, 300_000, 15_000_000, |d, cx| history(d, cx, true)),
-            Sub::tape("histories_default_parent", 260, 300_000, 15_000_000, |d, cx| history(d, cx, false)),
+            Sub::tape("histories_native_parent", 700, 300_000, 15_000_000, |d, cx| history(d, cx, true)),
+            Sub::tape("histories_default_parent", 700, 300_000, 15_000_000, |d, cx| history(d, cx, false)),
         ],
     }
 }
@@ -317,7 +317,8 @@ pub fn gen_op_near(d: &mut Dec, color_base: u32, top: &Rectangle) -> Op {
 pub fn gen_op_lim(d: &mut Dec, color_base: u32, top: &Rectangle, lim: u32) -> Op {
     match d.u(0, 9) {
         0..=2 => {
-            let n = d.u(0, 12);
+            // (long-strip histories: up to 408 pixels in one iterator)
+            let n = d.u(0, 12) * if lim > 14 { 34 } else { 1 };
             let mut v: Vec<(Point, u32)> = vec![];
             let (w, h) = (top.size.width.min(lim) as i32, top.size.height.min(lim) as i32);
             for k in 0..n {
@@ -369,9 +370,46 @@ fn history(d: &mut Dec, cx: &mut Cx, native: bool) -> Res {
         top_box = Model::new(parent_box, &stack).layers.last().map(|l| l.bbox_exact).unwrap_or(parent_box);
     }
     let nops = d.u(1, 6);
-    let ops: Vec<Op> = (0..nops).map(|k| gen_op_lim(d, 1 + k * if big { 3000 } else { 80 }, &top_box, lim)).collect();
-    cx.describe(|| format!("parent {} box {:?}; stack (innermost first) {:?}; operations {:?}", if native { "native-fill" } else { "draw_iter-only" }, parent_box, stack, ops));
+    let mut ops: Vec<Op> = (0..nops).map(|k| gen_op_lim(d, 1 + k * if big { 3000 } else { 80 }, &top_box, lim)).collect();
+    // one history in 1024: the first fill gets an area more than 65536 px wide (at most 3 rows), extended
+    // to the left or to the right, so that a clip cuts away more than 65535 colours of every row
+    let huge = big && d.aux_u(6, 0, 127) == 127;
+    if huge {
+        for op in ops.iter_mut() {
+            let a = match op {
+                Op::FillContiguous(a, _) | Op::FillSolid(a, _) => a,
+                _ => continue,
+            };
+            let old_full = (a.size.width * a.size.height) as usize;
+            let extra = 65_536 + a.size.width * 7 % 50;
+            if a.top_left.x.rem_euclid(2) == 0 {
+                a.top_left.x -= extra as i32;
+            }
+            a.size.width += extra;
+            a.size.height = a.size.height.min(3);
+            let full = (a.size.width * a.size.height) as usize;
+            if let Op::FillContiguous(_, stream) = op {
+                // keep the stream full, short or over-long as it was
+                let len = (full as i64 + stream.len() as i64 - old_full as i64).max(0) as usize;
+                let base = stream.first().copied().unwrap_or(7);
+                *stream = (0..len as u32).map(|k| base + k).collect();
+            }
+            break;
+        }
+    }
+    let show_ops = |ops: &Vec<Op>| -> String {
+        ops.iter()
+            .map(|op| match op {
+                Op::FillContiguous(a, s) if s.len() > 64 => format!("FillContiguous({:?}, {} colours {}..={})", a, s.len(), s[0], s[s.len() - 1]),
+                Op::DrawIter(v) if v.len() > 64 => format!("DrawIter({} pixels: {:?} ...)", v.len(), &v[..8]),
+                o => format!("{:?}", o),
+            })
+            .collect::<Vec<_>>()
+            .join(", ")
+    };
+    cx.describe(|| format!("parent {} box {:?}; stack (innermost first) {:?}; operations [{}]", if native { "native-fill" } else { "draw_iter-only" }, parent_box, stack, show_ops(&ops)));
     cx.class(match (big, depth) {
+        (true, _) if huge => "long_strip_with_65536_wide_fill",
         (true, _) => "long_strip",
         (_, 0) => "depth0",
         (_, 1) => "depth1",
@@ -418,7 +456,7 @@ fn history(d: &mut Dec, cx: &mut Cx, native: bool) -> Res {
                 Op::FillSolid(..) => "fill_solid",
                 Op::Clear(_) => "clear",
             };
-            return fail(format!("pixels:{}", sig), format!("after operation {} ({:?}): {}", k, op, df));
+            return fail(format!("pixels:{}", sig), format!("after operation {} ({}): {}", k, show_ops(&vec![op.clone()]), df));
         }
         let short = matches!(op, Op::FillContiguous(a, s) if s.len() < (a.size.width * a.size.height) as usize);
         if !writes.is_empty() && (writes.len() < issued || short) {
